@@ -457,6 +457,13 @@ def make_report(drv, inj):
     """Unsolicited gateway report from a JSON description:
     {"kind": "forward"|"backward"|"error"|"noframe"|"busok"|"stale-answer"|"idle"|"stale-info", ...}"""
     k = inj["kind"]
+    if k == "damaged":
+        # a gateway packet damaged on the way to the host (serial line noise): no bus frame at all
+        if drv == "luba":
+            return RW.luba_frame(0x33, [9, 0], bad_checksum=inj.get("value", 1) or 1)
+        if drv == "sci":
+            return RW.sci_frame(0x30, 0, 0, 0, bad_checksum=inj.get("value", 1) or 1)
+        return None
     if drv == "tridonic":
         mode = MODE_RESPONSE if inj.get("as_own") else MODE_OBSERVE
         seq = inj.get("seq", 0)
